@@ -196,6 +196,15 @@ func (e *Env) ident(name string) (Value, error) {
 			}
 		}
 		return nil, fmt.Errorf("visited used outside a map range loop clause")
+	case "nvisited":
+		if e.loop != nil && e.loop.iter != nil {
+			if g, ok := e.fr.iters[e.loop.iter]; ok {
+				if v, ok := e.st.ghost[g+"#n"]; ok {
+					return v, nil
+				}
+			}
+		}
+		return nil, fmt.Errorf("nvisited used outside a map range loop clause")
 	case "key":
 		if e.loop != nil && e.loop.iter != nil {
 			if g, ok := e.fr.iters[e.loop.iter]; ok {
@@ -292,12 +301,10 @@ func (e *Env) pkgObject(obj types.Object) (Value, error) {
 		return constToValue(m, o.Val(), o.Type()), nil
 	case *types.Var:
 		// global variable: load through its SSA global
-		for _, sp := range e.x.L.SSA {
-			if sp != nil && sp.Pkg == o.Pkg() {
-				if g, ok := sp.Members[o.Name()].(*ssa.Global); ok {
-					p := e.x.val(e.fr, e.st, g).(PtrV)
-					return e.x.load(e.st, p), nil
-				}
+		if sp := e.x.L.Prog.Package(o.Pkg()); sp != nil {
+			if g, ok := sp.Members[o.Name()].(*ssa.Global); ok {
+				p := e.x.val(e.fr, e.st, g).(PtrV)
+				return e.x.load(e.st, p), nil
 			}
 		}
 		return nil, fmt.Errorf("global %s has no SSA member (package not loaded as root)", o.Name())
@@ -750,6 +757,35 @@ func (e *Env) call(ex ECall) (Value, error) {
 				return nil, fmt.Errorf("ref of non-object")
 			}
 			return Scalar{T: r, Sort: SRef, Typ: types.Typ[types.UnsafePointer]}, nil
+		}
+		if mc, ok := e.x.DB.Macros[id.Name]; ok {
+			if len(ex.Args) != len(mc.Params) {
+				return nil, fmt.Errorf("macro %s takes %d arguments", mc.Name, len(mc.Params))
+			}
+			saved := map[string]Value{}
+			had := map[string]bool{}
+			var vals []Value
+			for _, a := range ex.Args {
+				v, err := e.eval(a)
+				if err != nil {
+					return nil, err
+				}
+				vals = append(vals, v)
+			}
+			for i, p := range mc.Params {
+				if old, ok := e.vars[p]; ok {
+					saved[p], had[p] = old, true
+				}
+				e.vars[p] = vals[i]
+			}
+			v, err := e.eval(mc.Body)
+			for _, p := range mc.Params {
+				delete(e.vars, p)
+				if had[p] {
+					e.vars[p] = saved[p]
+				}
+			}
+			return v, err
 		}
 		if d, ok := e.x.DB.Defines[id.Name]; ok {
 			var ts []Term
